@@ -146,6 +146,9 @@ def check(ctx):
         if cls == "Mesh":
             # edge_mesh sub-keys are EdgeMesh's business; mesh reader may also recompute from (sites, elements)
             pass
+        if cls == "DynamicsData":
+            # the reader also accepts the solver's output layout (frames under "data", written by DataHandler: C05's business)
+            rset.discard(("data", "data"))
         only_w, only_r = sorted(wset - rset), sorted(rset - wset)
         ctx.ob("R14.1", f"{cls}: keys written == keys read", not only_w and not only_r,
                detail={"written": sorted(wset), "read": sorted(rset), "only_written": only_w, "only_read": only_r},
@@ -531,6 +534,7 @@ def reader_casts(ctx):
         if f.module.name.startswith("tdgl.test") or not any(k in f.qual for k in ("from_hdf5", "load_state_data", "deserialize")):
             continue
         n += 1
+        pmf = parent_map(f.node)
         for c in own_nodes(f.node):
             if not isinstance(c, ast.Call):
                 continue
@@ -539,6 +543,11 @@ def reader_casts(ctx):
             builtin = isinstance(fn_, ast.Name) and fn_.id in ("float", "int", "round")
             computed = isinstance(fn_, ast.Subscript) or (isinstance(fn_, ast.Attribute) and fn_.attr in ("type", "__class__"))
             if not (builtin or computed) or not c.args:
+                continue
+            # only conversions of a value on its way into the object: not comparisons, indices or loop bounds
+            par = pmf[id(c)][0] if id(c) in pmf else None
+            if isinstance(par, (ast.Compare, ast.Subscript, ast.Slice)) or (
+                    isinstance(par, ast.Call) and norm(par.func) in ("range", "min", "max", "len")):
                 continue
             key = (f.fq, norm(c))
             ok = key in CASTS_OK
